@@ -1,8 +1,9 @@
 /-
-  MSPriorityQueue machine: the three layers of the invariant together (locks, shape, conservation), for every
+  MSPriorityQueue machine: the four layers of the invariant together (locks, shape, conservation, heap order), for every
   reachable state.
 -/
 import CdsVerif.Algo.MSPQ.Cons
+import CdsVerif.Algo.MSPQ.GStep
 namespace CdsVerif.Algo.MSPQ
 open CdsVerif.Machine CdsVerif.Spec
 
@@ -10,16 +11,17 @@ structure MInv (c : Cfg) (rank : Nat → Nat) (s : St) : Prop where
   l : LInv c s
   sh : SInv c rank s
   co : CInv c s
+  go : GInv c s
 
 theorem minv_init (c : Cfg) (rank : Nat → Nat) (hc : SlotOK c rank) : MInv c rank init :=
-  ⟨linv_init c, sinv_init c rank hc, cinv_init c⟩
+  ⟨linv_init c, sinv_init c rank hc, cinv_init c, ginv_init c⟩
 
 theorem minv_apply {c : Cfg} {rank : Nat → Nat} (hc : SlotOK c rank) (s : St) (t : Tid) (a : Act) (s' : St) (o : Obs)
     (h : MInv c rank s) (hap : (model c).apply s t a = some (s', o)) : MInv c rank s' := by
   rcases apply_cases hap with ⟨op, -, hs, -⟩ | ⟨ev, -, hs, -⟩ | ⟨r, -, hs, -⟩
-  · exact ⟨linv_invoke h.l hs, sinv_invoke h.l h.sh hs, cinv_invoke h.co hs⟩
-  · exact ⟨linv_step hc h.l hs, sinv_step hc h.l h.sh hs, cinv_step hc h.l h.sh h.co hs⟩
-  · exact ⟨linv_result h.l hs, sinv_result h.l h.sh hs, cinv_result h.l h.co hs⟩
+  · exact ⟨linv_invoke h.l hs, sinv_invoke h.l h.sh hs, cinv_invoke h.co hs, ginv_invoke h.l h.go hs⟩
+  · exact ⟨linv_step hc h.l hs, sinv_step hc h.l h.sh hs, cinv_step hc h.l h.sh h.co hs, ginv_step hc h.l h.sh h.go hs⟩
+  · exact ⟨linv_result h.l hs, sinv_result h.l h.sh hs, cinv_result h.l h.co hs, ginv_result h.l h.go hs⟩
 
 theorem minv_reachable {c : Cfg} {rank : Nat → Nat} (hc : SlotOK c rank) (s : St) (h : (model c).Reachable init s) :
     MInv c rank s :=
